@@ -128,6 +128,7 @@ def _convert_old_agg(agg: AST, unqiue_vars: UniqueVariables) -> AST:
     bm = {True: 0, False: 1}
     new_elements: list[AST] = []
     comparison_counter = 2
+    seen_constants: set[tuple[Sign, bool]] = set()
 
     def replace_with_new(var: AST) -> AST:
         if var.name == "_":
@@ -147,6 +148,10 @@ def _convert_old_agg(agg: AST, unqiue_vars: UniqueVariables) -> AST:
             terms.extend(sorted(collect_ast(atom, "Variable")))
         elif atom.ast_type == ASTType.BooleanConstant:
             terms.append(SymbolicTerm(LOC, Number(bm[atom.value])))
+            if (old_elem.literal.sign, atom.value) in seen_constants:
+                # gringo counts every boolean constant on its own
+                terms.append(SymbolicTerm(LOC, Number(comparison_counter)))
+            seen_constants.add((old_elem.literal.sign, atom.value))
             comparison_counter += 1
         elif atom.ast_type == ASTType.SymbolicAtom:
             if new_literal.sign == Sign.NoSign:
